@@ -3,6 +3,7 @@ package harness
 import (
 	"context"
 	"fmt"
+	"strings"
 	"time"
 
 	"github.com/bartossh/Computantis/src/accountant"
@@ -104,7 +105,45 @@ func (w *World) newTrx(s *Step) (transaction.Transaction, error) {
 	if s.Data > 0 {
 		subj = "contract"
 	}
-	return transaction.New(subj, spice.Melange{Currency: s.Cur, SupplementaryCurrency: s.Sup}, data, rcv.Address(), iss)
+	trx, err := transaction.New(subj, spice.Melange{Currency: s.Cur, SupplementaryCurrency: s.Sup}, data, rcv.Address(), iss)
+	if err != nil || s.ToText == "" {
+		return trx, err
+	}
+	// a receiver address is free text for the ledger (only the client library insists on a minimum length):
+	// re-address the transaction and sign it again as its issuer
+	trx.ReceiverAddress = w.textAddress(s.ToText)
+	if !containsString(w.TextAddrs, trx.ReceiverAddress) {
+		w.TextAddrs = append(w.TextAddrs, trx.ReceiverAddress) // probed like any wallet's balance from now on
+	}
+	w.probe("free-text-receiver:" + s.ToText)
+	trx.Hash, trx.IssuerSignature = iss.Sign(trx.GetMessage())
+	return trx, nil
+}
+
+// textAddress maps the token of a step to the receiver text it stands for.
+func (w *World) textAddress(tok string) string {
+	switch tok {
+	case "b32":
+		return "abcdefghijklmnopqrstuvwxyz012345" // as long as a vertex hash
+	case "empty":
+		return ""
+	case "lastvertex":
+		return "last_vertex" // a bookkeeping key of the vertex store
+	case "vhash":
+		return string(w.GenesisVertex.Hash[:]) // the raw bytes of a vertex hash (direct ledger API only: not valid UTF-8 on the wire)
+	case "huge":
+		return strings.Repeat("x", 66000) // longer than the store accepts as a key
+	}
+	return tok
+}
+
+func containsString(xs []string, x string) bool {
+	for _, y := range xs {
+		if y == x {
+			return true
+		}
+	}
+	return false
 }
 
 // snapshot takes a snapshot of node n (retrying while the ledger lock is held).
